@@ -8,8 +8,8 @@ import ast, os, re
 from py2lean import Refuse
 
 PT_ORDER = ('none', 'pupil', 'image', 'tilt', 'transform')
-ERRS = ('typeError', 'keyError', 'attributeError', 'valueError', 'otherError')
-ERR_OF = {'TypeError': 'typeError', 'KeyError': 'keyError', 'AttributeError': 'attributeError', 'ValueError': 'valueError'}
+ERRS = ('typeError', 'keyError', 'attributeError', 'valueError', 'notImplementedError', 'otherError')
+ERR_OF = {'TypeError': 'typeError', 'KeyError': 'keyError', 'AttributeError': 'attributeError', 'ValueError': 'valueError', 'NotImplementedError': 'notImplementedError'}
 
 
 # ------------------------------------------------------------------------------------------- mini interpreter
@@ -270,6 +270,17 @@ def code_tables(repo):
         s = ast.unparse(f) if f else ''
         if "ptype_out = _propagate_ptype(wavefront.ptype, method='fraunhofer')" not in s or not re.search(r'Wavefront\.empty\([^)]*ptype=ptype_out', s):
             raise Refuse(f'{name}: ptype hand-over not found')
+    # propagate_fft: position of the tilt refusal relative to the ptype check
+    ff = _toplevel(prop, ast.FunctionDef)['propagate_fft']
+    fbody = [st for st in ff.body if not (isinstance(st, ast.Expr) and isinstance(st.value, ast.Constant))]
+    i_ptype = next(i for i, st in enumerate(fbody) if 'ptype_out = _propagate_ptype(' in ast.unparse(st))
+    tilt_ifs = [(i, st) for i, st in enumerate(fbody) if isinstance(st, ast.If) and ast.unparse(st.test) == '_has_tilt(wavefront)']
+    if len(tilt_ifs) != 1 or len(tilt_ifs[0][1].body) != 1 or not isinstance(tilt_ifs[0][1].body[0], ast.Raise) or tilt_ifs[0][1].orelse:
+        raise Refuse('propagate_fft: `if _has_tilt(wavefront): raise …` not found')
+    i_tilt = tilt_ifs[0][0]
+    texc = tilt_ifs[0][1].body[0].exc
+    tilt_exc = (texc.func if isinstance(texc, ast.Call) else texc).id
+    if any(isinstance(n, (ast.Raise, ast.Return)) for st in fbody[:min(i_tilt, i_ptype)] for n in ast.walk(st)): raise Refuse('propagate_fft: an exit before both checks')
     pcells = {}
     for w in wtypes:
         try:
@@ -278,7 +289,12 @@ def code_tables(repo):
             pcells[w] = ('ok', str(r)) if str(r) in wtypes else ('exc', 'TypeError')
         except _Raise as e:
             pcells[w] = ('exc', e.name)
-    return ptypes, wtypes, cells, pcells
+    fftcells = {}
+    for t in (False, True):
+        for w in wtypes:
+            if t and (i_tilt < i_ptype or pcells[w][0] == 'ok'): fftcells[(t, w)] = ('exc', tilt_exc)
+            else: fftcells[(t, w)] = pcells[w]
+    return ptypes, wtypes, cells, pcells, fftcells
 
 
 # ------------------------------------------------------------------------------------------- classes
@@ -347,6 +363,10 @@ def class_table(repo, ptypes):
             return multiply_kind(base_of(c)) if c != 'Plane' else ('table', None)
         if c == 'Plane': return ('table', None)
         body = [s for s in m.body if not (isinstance(s, ast.Expr) and isinstance(s.value, ast.Constant))]
+        # statements that precede the delegation to super().multiply (which performs the ptype check) do not change the result
+        # type; they are recorded separately by writes_before_super() and must be effect-free (theorem no_write_before_guard)
+        k0 = next((i for i, st in enumerate(body) if 'super().multiply(' in ast.unparse(st)), None)
+        if k0 is not None and k0 > 0 and all(isinstance(st, (ast.Assign, ast.AugAssign, ast.Expr)) for st in body[:k0]): body = body[k0:]
         if body and ast.unparse(body[0]) == 'wavefront = super().multiply(wavefront)' and ast.unparse(body[-1]) == 'return wavefront':
             forced = None
             for st in body[1:-1]:
@@ -373,10 +393,42 @@ def class_table(repo, ptypes):
                     if k.arg and k.arg not in wf_kwargs: missing.append(f'Wavefront(…{k.arg}=)')
         return ('custom', sorted(set(missing)))
 
+    MUTATORS = ('append', 'extend', 'insert', 'pop', 'remove', 'clear', 'update', 'sort', 'reverse', 'fill', 'setdefault')
+
+    def writes_before_super(c):
+        """attribute writes on the two operands (`self`, the wavefront parameter) that a `multiply` override performs BEFORE it
+        delegates to super().multiply — i.e. before the ptype check could refuse the operation. For a class that inherits
+        multiply: the list of the class it inherits from; for a body that never delegates (Rotate, Flip): writes anywhere."""
+        m = method(c, 'multiply')
+        if m is None: return writes_before_super(base_of(c)) if c != 'Plane' else []
+        if c == 'Plane': return []      # guard-first is checked in code_tables()
+        params = {a.arg for a in m.args.args[:2]}
+        body = [st for st in m.body if not (isinstance(st, ast.Expr) and isinstance(st.value, ast.Constant))]
+        k0 = next((i for i, st in enumerate(body) if 'super().multiply(' in ast.unparse(st)), len(body))
+        def root(n):
+            while isinstance(n, (ast.Attribute, ast.Subscript)): n = n.value
+            return n.id if isinstance(n, ast.Name) else None
+        out = []
+        for st in body[:k0]:
+            for n in ast.walk(st):
+                tg = []
+                if isinstance(n, ast.Assign): tg = n.targets
+                elif isinstance(n, (ast.AugAssign, ast.AnnAssign)): tg = [n.target]
+                elif isinstance(n, ast.Delete): tg = n.targets
+                for t in tg:
+                    for e in (t.elts if isinstance(t, ast.Tuple) else [t]):
+                        if isinstance(e, (ast.Attribute, ast.Subscript)) and root(e) in params: out.append(ast.unparse(e))
+                if isinstance(n, ast.Call) and isinstance(n.func, ast.Attribute) and n.func.attr in MUTATORS and root(n.func.value) in params:
+                    out.append(ast.unparse(n.func) + '()')
+                if isinstance(n, ast.Call) and isinstance(n.func, ast.Name) and n.func.id == 'setattr' and n.args and root(n.args[0]) in params:
+                    out.append(ast.unparse(n)[:40])
+        inner = writes_before_super(base_of(c)) if k0 < len(body) else []
+        return out + inner
+
     out = []
     for c in public:
         if c not in classes: raise Refuse(f'public class {c} not defined in plane.py')
-        out.append((c, default_ptype(c), multiply_kind(c)))
+        out.append((c, default_ptype(c), multiply_kind(c), writes_before_super(c)))
     return out
 
 
@@ -475,13 +527,13 @@ def _res(cell):
     return f'.refused .{ERR_OF.get(cell[1], "otherError")}'
 
 def generate(repo):
-    ptypes, wtypes, cells, pcells = code_tables(repo)
+    ptypes, wtypes, cells, pcells, fftcells = code_tables(repo)
     classes = class_table(repo, ptypes)
     dmul = doc_mul(repo, ptypes, wtypes)
     dcls = doc_classes(repo, ptypes)
     dprop = doc_propagate(repo, wtypes)
     for n in dcls:
-        if n not in [c for c, _, _ in classes]: raise Refuse(f'documented class {n} is not a public plane class')
+        if n not in [c for c, _, _, _ in classes]: raise Refuse(f'documented class {n} is not a public plane class')
     L = []
     A = L.append
     A('/-- `lentil/ptype.py:PTYPES` -/')
@@ -491,11 +543,11 @@ def generate(repo):
     A('inductive Err where\n' + '\n'.join(f'  | {e}' for e in ERRS) + '\nderiving DecidableEq, Repr\n')
     A('inductive Res where\n  | ok (w : WType)\n  | refused (e : Err)\nderiving DecidableEq, Repr\n')
     A('/-- the plane classes exported by `lentil/__init__.py` -/')
-    A('inductive PlaneClass where\n' + '\n'.join(f'  | {c}' for c, _, _ in classes) + '\nderiving DecidableEq, Repr\n')
+    A('inductive PlaneClass where\n' + '\n'.join(f'  | {c}' for c, _, _, _ in classes) + '\nderiving DecidableEq, Repr\n')
     A('def PType.all : List PType := [' + ', '.join('.' + p for p in ptypes) + ']')
     A('def WType.all : List WType := [' + ', '.join('.' + p for p in wtypes) + ']')
-    A('def PlaneClass.all : List PlaneClass := [' + ', '.join('.' + c for c, _, _ in classes) + ']')
-    for ty, names in (('PType', ptypes), ('WType', wtypes), ('PlaneClass', [c for c, _, _ in classes])):
+    A('def PlaneClass.all : List PlaneClass := [' + ', '.join('.' + c for c, _, _, _ in classes) + ']')
+    for ty, names in (('PType', ptypes), ('WType', wtypes), ('PlaneClass', [c for c, _, _, _ in classes])):
         A(f'def {ty}.name : {ty} → String\n' + '\n'.join(f'  | .{n} => "{n}"' for n in names))
         A(f'def {ty}.ofName? : String → Option {ty}\n' + '\n'.join(f'  | "{n}" => some .{n}' for n in names) + '\n  | _ => none')
     A('def Err.name : Err → String\n' + '\n'.join(f'  | .{e} => "{e[0].upper() + e[1:]}"' for e in ERRS))
@@ -511,19 +563,24 @@ def generate(repo):
     A('def docPropagate : WType → Res\n' + '\n'.join(
         f'  | .{w} => ' + (f'.ok .{dprop[w]}' if dprop[w] else '.refused .typeError') for w in wtypes))
     A('\n/-- ptype of `C(...)` constructed without a ptype argument (constructors of `lentil/plane.py`) -/')
-    A('def classPtype : PlaneClass → PType\n' + '\n'.join(f'  | .{c} => .{p}' for c, p, _ in classes))
+    A('def classPtype : PlaneClass → PType\n' + '\n'.join(f'  | .{c} => .{p}' for c, p, _, _ in classes))
     A('\n/-- a `multiply` override of the form `wavefront = super().multiply(wavefront); wavefront.ptype = X; …` -/')
     A('def classForce : PlaneClass → Option WType\n' + '\n'.join(
-        f'  | .{c} => ' + (f'some .{k[1]}' if k[0] == 'table' and k[1] else 'none') for c, _, k in classes))
+        f'  | .{c} => ' + (f'some .{k[1]}' if k[0] == 'table' and k[1] else 'none') for c, _, k, _ in classes))
     A('\n/-- the class replaces `Plane.multiply` by a body that does not go through the ptype table -/')
-    A('def classCustomMul : PlaneClass → Bool\n' + '\n'.join(f'  | .{c} => {"true" if k[0] == "custom" else "false"}' for c, _, k in classes))
+    A('def classCustomMul : PlaneClass → Bool\n' + '\n'.join(f'  | .{c} => {"true" if k[0] == "custom" else "false"}' for c, _, k, _ in classes))
     A('\n/-- names referenced by a custom `multiply` that exist nowhere in lentil (=> AttributeError/TypeError when called) -/')
     A('def classMissing : PlaneClass → List String\n' + '\n'.join(
-        f'  | .{c} => [' + ', '.join(f'"{m}"' for m in (k[1] if k[0] == 'custom' else [])) + ']' for c, _, k in classes))
+        f'  | .{c} => [' + ', '.join(f'"{m}"' for m in (k[1] if k[0] == 'custom' else [])) + ']' for c, _, k, _ in classes))
+    A('\n/-- attribute writes on `self` / the wavefront argument that the class\'s `multiply` performs before delegating to\n`super().multiply` (i.e. before the ptype check can refuse) -/')
+    A('def classWritesBeforeSuper : PlaneClass → List String\n' + '\n'.join(
+        f'  | .{c} => [' + ', '.join('"' + w.replace('"', "'") + '"' for w in wr) + ']' for c, _, _, wr in classes))
+    A('\n/-- `propagate_fft`: the order of its two refusals (`_has_tilt` -> NotImplementedError, `_propagate_ptype` -> TypeError) as in the source; first argument: the wavefront carries fitted tilt -/')
+    A('def codePropagateFft : Bool → WType → Res\n' + '\n'.join(f'  | {str(t).lower()}, .{w} => {_res(fftcells[(t, w)])}' for t in (False, True) for w in wtypes))
     A('\n/-- table "ptype" of docs/user/fundamentals/planes.rst -/')
     A('def docClassPtype : PlaneClass → Option PType\n' + '\n'.join(
-        f'  | .{c} => ' + (f'some .{dcls[c]}' if c in dcls else 'none') for c, _, _ in classes))
-    notes = {'cells': len(cells), 'classes': {c: [p, list(k)] for c, p, k in classes}, 'documented_classes': dcls}
+        f'  | .{c} => ' + (f'some .{dcls[c]}' if c in dcls else 'none') for c, _, _, _ in classes))
+    notes = {'cells': len(cells), 'classes': {c: [p, list(k), wr] for c, p, k, wr in classes}, 'documented_classes': dcls}
     return '\n'.join(L) + '\n', notes
 
 MODULES = [{'name': 'PlaneType', 'src': 'lentil/plane.py', 'generator': generate, 'props': ['C08', 'C07']}]
